@@ -371,6 +371,82 @@ def isHostname (a : Str) : Option Bool :=
 /-- `NewAddress` (address.go:263-268) -/
 def newAddress (t na : Str) : Str := t ++ sep ++ na
 
+/-! ### resolution, public / private (address.go:83-122, 247-260)
+The DNS lookup `lookupHost` (a package-level variable of the code) is a parameter: `none` = an error,
+`some l` = the addresses found. -/
+
+/-- `"[::]"` -/
+def bracketAny : Str := [91, 58, 58, 93]
+
+/-- `Address.Resolve` (address.go:95-122); `none` = index panic (`vals[·]` of an accessor, or `ipAddress[0]` on an
+answer that is empty although there was no error) -/
+def resolve (lookup : Str → Option (List Str)) (a : Str) : Option Str :=
+  if !valid a then some []
+  else match host a, isHostname a with
+    | some h, some ih =>
+      if h = bracketAny then some [58, 58]          -- "::"
+      else if parseIP h then some h
+      else if !ih then some []
+      else match lookup h with
+        | none => some []
+        | some l => l.head?
+    | _, _ => none
+
+/-- the host name `Resolve` hands to the DNS lookup, if it consults it at all -/
+def lookedUp (a : Str) : Option Str :=
+  if !valid a then none
+  else match host a, isHostname a with
+    | some h, some true => if h = bracketAny || parseIP h then none else some h
+    | _, _ => none
+
+/-- `Address.NetworkAddressResolved` (address.go:83-93) -/
+def networkAddressResolved (lookup : Str → Option (List Str)) (a : Str) : Option Str :=
+  if !valid a then some []
+  else match resolve lookup a, port a with
+    | some ip, some p => some (joinHostPort ip p)
+    | _, _ => none
+
+/-- one `.` of a regular expression: any rune but a newline; what follows it -/
+def dotRune (s : Str) : Option Str :=
+  match s with
+  | [] => none
+  | c :: _ => if c = 10 then none else some (s.drop (lowerStep s).2)
+
+/-- `s` begins with `pre`, then a byte in `lo..hi`, then a dot (`^172\.1[6-9]\.`) -/
+def prefixRangeDot (pre : Str) (lo hi : Nat) (s : Str) : Bool :=
+  pre.isPrefixOf s &&
+    match s.drop pre.length with
+    | c :: d :: _ => lo ≤ c && c ≤ hi && d = 46
+    | _ => false
+
+/-- hand-written recogniser replacing the regular expression of `Public`
+`(^127\.)|(^10\.)|(^172\.1[6-9]\.)|(^172\.2[0-9]\.)|(^172\.3[0-1]\.)|(^192\.168\.)|(^169\.254)|(^\[::1\])|(^\[fd.{0,2}:)`:
+every alternative is anchored at the start. -/
+def privateRe (s : Str) : Bool :=
+  [49, 50, 55, 46].isPrefixOf s ||                                  -- 127.
+  [49, 48, 46].isPrefixOf s ||                                      -- 10.
+  prefixRangeDot [49, 55, 50, 46, 49] 54 57 s ||                    -- 172.1[6-9].
+  prefixRangeDot [49, 55, 50, 46, 50] 48 57 s ||                    -- 172.2[0-9].
+  prefixRangeDot [49, 55, 50, 46, 51] 48 49 s ||                    -- 172.3[0-1].
+  [49, 57, 50, 46, 49, 54, 56, 46].isPrefixOf s ||                  -- 192.168.
+  [49, 54, 57, 46, 50, 53, 52].isPrefixOf s ||                      -- 169.254
+  [91, 58, 58, 49, 93].isPrefixOf s ||                              -- [::1]
+  ([91, 102, 100].isPrefixOf s &&                                   -- [fd.{0,2}:
+    let r := s.drop 3
+    r.head? = some 58 ||
+      match dotRune r with
+      | none => false
+      | some r1 => r1.head? = some 58 ||
+        match dotRune r1 with
+        | none => false
+        | some r2 => r2.head? = some 58)
+
+/-- `Address.Public` (address.go:247-260): `Valid` is only asked when the resolved address is not private -/
+def isPublic (lookup : Str → Option (List Str)) (a : Str) : Option Bool :=
+  match networkAddressResolved lookup a with
+  | none => none
+  | some s => if privateRe s then some false else some (valid a)
+
 /-! ### listen address (struct.go:284-292, tcp.go:471-506) and websocket address
 (websocket_client.go:582-632) -/
 
@@ -498,11 +574,22 @@ def showR : R → String
   | .err => "err"
   | .panic => "panic"
 
+def showOptB (o : Option Bool) : String :=
+  match o with
+  | none => "panic"
+  | some b => b01 b
+
+/-- `Resolve`, `NetworkAddressResolved`, `Public` with the given DNS answer, and the name looked up -/
+def showResolve (lookup : Str → Option (List Str)) (a : Str) : String :=
+  let lk := match lookedUp a with | none => "none" | some h => Util.hex h
+  s!"res={showOpt (resolve lookup a)} nar={showOpt (networkAddressResolved lookup a)} public={showOptB (isPublic lookup a)} looked={lk}"
+
 def parseBool (s : String) : Option Bool :=
   if s = "1" then some true else if s = "0" then some false else none
 
 /-- `addr <hex>` every accessor; `hostname <hex>` validHostname; `ip <hex>` ParseIP≠nil;
 `shp <hex>` SplitHostPort; `gbind <hex>`; `listen <addr> <listenAddr>`;
+`resolve <addr> err` / `resolve <addr> ok <answer>*` Resolve, NetworkAddressResolved, Public with that DNS answer;
 `ws <addr> <global> nourl` / `ws <addr> <global> url <url> <parsed> <abs> <scheme> <port> <hostname>`
 (the last five are what `url.Parse(<url>)` returned); `lower <hex>` length and ASCII bytes of ToLower. -/
 def step (s : State) (toks : List String) : State × String :=
@@ -552,6 +639,14 @@ def step (s : State) (toks : List String) : State × String :=
     | some a, some g, some _, some pd, some ab, some sc, some po, some hn =>
       (s, showR (wsHostPort a (some { parsed := pd, abs := ab, scheme := sc, port := po, hostname := hn }) g))
     | _, _, _, _, _, _, _, _ => (s, "bad-op")
+  | "resolve" :: a :: "err" :: [] =>
+    match Util.unhex a with
+    | some a => (s, showResolve (fun _ => none) a)
+    | none => (s, "bad-op")
+  | "resolve" :: a :: "ok" :: answers =>
+    match Util.unhex a, answers.mapM Util.unhex with
+    | some a, some l => (s, showResolve (fun _ => some l) a)
+    | _, _ => (s, "bad-op")
   | ["lower", h] =>
     match Util.unhex h with
     | some h =>
